@@ -39,8 +39,16 @@ Theorem C16_group_prefix : forall env sk fname inc stmts s im ic s' e,
     apply_stmts env sk fname inc [st] s_mid im' ic' = (s', SErr e).
 Proof. exact apply_stmts_prefix. Qed.
 
-(* a failed parse records no imports and touches neither lock, registry nor constants *)
+(* a failed parse records no imports and touches neither lock nor constants; the registry only grows by what the
+   modules imported before the failure register ... *)
+Theorem C16_error_leaves_flags_gen : forall fuel env sk fname o pending ts s im ic s' e gs pe,
+  parse_groups fuel o pending ts = (gs, pe) -> no_includes gs ->
+  parse_tokens fuel env sk fname o pending ts s im ic = (s', SErr e) ->
+  t_imports s' = t_imports s /\ t_locked s' = t_locked s /\ reg_extends env s s' /\ t_consts s' = t_consts s.
+Proof. exact C16_error_leaves_flags_gen. Qed.
+(* ... and is untouched when imports have no side effects *)
 Theorem C16_error_leaves_flags : forall fuel env sk fname o pending ts s im ic s' e gs pe,
+  pure_imports env ->
   parse_groups fuel o pending ts = (gs, pe) -> no_includes gs ->
   parse_tokens fuel env sk fname o pending ts s im ic = (s', SErr e) ->
   t_imports s' = t_imports s /\ t_locked s' = t_locked s /\ t_reg s' = t_reg s /\ t_consts s' = t_consts s.
@@ -64,6 +72,7 @@ Proof. exact with_loc_syntax. Qed.
 Print Assumptions C16_stream_eq.
 Print Assumptions C16_failed_parse_is_prefix.
 Print Assumptions C16_group_prefix.
+Print Assumptions C16_error_leaves_flags_gen.
 Print Assumptions C16_error_leaves_flags.
 Print Assumptions C16_provenance.
 Print Assumptions C16_chain_append.
